@@ -23,7 +23,8 @@ HistEvent == /\ l <= Len(T.hist)
              /\ LET e == T.hist[l] IN
                   /\ Op(e[1], e[2])
                   /\ drift' = drift
-                       \cup (IF (e[3] = 1) # (eps[1] = 0 /\ eps'[1] # 0) THEN {<<l, "eps_written_by_unexpected_step">>} ELSE {})
+                       \cup (IF (e[3] = 1) # ((eps[1] = 0 /\ eps'[1] # 0) \/ (eps[1] # 0 /\ eps'[1] = 0))
+                             THEN {<<l, "eps_written_by_unexpected_step">>} ELSE {})
                        \cup (IF l > 1 /\ e[4] < T.hist[l - 1][4] THEN {<<l, "store_shrank">>} ELSE {})
                        \cup (IF e[1] # "encode" /\ l > 1 /\ e[4] # T.hist[l - 1][4] THEN {<<l, "store_changed_without_encode">>} ELSE {})
              /\ l' = l + 1 /\ UNCHANGED <<pc, probe, result, tid, fails>>
@@ -33,7 +34,7 @@ ProbeEvent == /\ l = Len(T.hist) + 1
               /\ pc' = "probed"
               /\ fails' = IF T.after = T.fresh THEN fails ELSE fails \cup {<<l, "same_result">>}
               \* the model predicts equality (NoLeak); anything else means the generated history left the band
-              /\ drift' = IF ResultOf(T.probe, eps, store, legal) = Fresh(T.probe) THEN drift ELSE drift \cup {<<l, "history_outside_band">>}
+              /\ drift' = IF ResultOf(T.probe, eps, store, legal) = Fresh(T.probe) THEN drift ELSE drift \cup {<<l, "history_outside_assumption">>}
               /\ l' = l + 1 /\ UNCHANGED tid
 
 Done == /\ l = Len(T.hist) + 2 /\ l' = l + 1
